@@ -45,26 +45,26 @@ Proof.
   destruct (flip_of kind S d) as [f|] eqn:Ef.
   - specialize (Hflip f eq_refl).
     destruct (o_ltb ROps (vz v) (o_ofZ ROps 0)).
-    + destruct (in_sector ROps tol N (ract ROps f v)).
+    + destruct (in_sector ROps tol N (vunit ROps (ract ROps f v))).
       * right; right; left. exists f. split; [exact Hflip|reflexivity].
       * right; right; right. eexists; exists f. split; [apply Hs|split; [exact Hflip|reflexivity]].
-    + destruct (in_sector ROps tol N v); [left; reflexivity|].
+    + destruct (in_sector ROps tol N (vunit ROps v)); [left; reflexivity|].
       right; left. eexists. split; [apply Hs|reflexivity].
-  - destruct (in_sector ROps tol N v); [left; reflexivity|].
+  - destruct (in_sector ROps tol N (vunit ROps v)); [left; reflexivity|].
     right; left. eexists. split; [apply Hs|reflexivity].
 Qed.
 
-(* (d) a direction already inside the closed sector is returned unchanged
+(* (d) a vector whose DIRECTION is already inside the closed sector is returned unchanged
    (plain groups), hence projecting twice changes nothing whenever the first
    projection lands inside the sector *)
 Theorem project_fixes_inside tol (S : list Rrot) N center v :
-  in_sector ROps tol N v = true -> project ROps idR 0 tol S N center v = v.
+  in_sector ROps tol N (vunit ROps v) = true -> project ROps idR 0 tol S N center v = v.
 Proof.
   intros H. unfold project. destruct center; [|reflexivity]. cbn [flip_of sub_of]. rewrite H. reflexivity.
 Qed.
 
 Corollary project_idempotent_if_lands_inside tol (S : list Rrot) N center v :
-  in_sector ROps tol N (project ROps idR 0 tol S N center v) = true ->
+  in_sector ROps tol N (vunit ROps (project ROps idR 0 tol S N center v)) = true ->
   project ROps idR 0 tol S N center (project ROps idR 0 tol S N center v) = project ROps idR 0 tol S N center v.
 Proof. apply project_fixes_inside. Qed.
 
